@@ -8,6 +8,7 @@ a continuation indent.  Oracles: round trip through parse_config(config_str()), 
 invariance, documented structure, "always parses", markdown keeps binding lines verbatim.
 """
 import ast
+import enum
 import math
 import random
 import re
@@ -100,7 +101,11 @@ IMPORTS = ['import math', 'import os.path', 'from os import path', 'import json 
            'from xml.dom import minidom as md', 'import collections.abc']
 REF_TARGETS = ['gn', 'a.b.fn', 'mod.K', 's/gn', 'S/t/c.b.fn']
 NONLIT = ['object', 'set', 'frozenset', 'lambda', 'instance', 'unknown_ref', 'range', 'class',
-          'inf', 'nan', 'complex_real', 'ellipsis', 'bytearray', 'reprs_as_1']
+          'inf', 'nan', 'complex_real', 'ellipsis', 'bytearray', 'reprs_as_1',
+          # instances of int / str / float subclasses that are == and hash-equal to a plain literal
+          # (16, 'cosine', 2.5) but print as something that is no literal
+          'intenum16', 'strsub_cosine', 'floatsub_2_5']
+TWINS = {'intenum16': '16', 'strsub_cosine': "'cosine'", 'floatsub_2_5': '2.5'}
 
 
 class _Inst:
@@ -113,8 +118,26 @@ class _ReprsAsOne:
     return '1'
 
 
+class _Prec(enum.IntEnum):
+  HALF = 16
+
+
+class _StrSub(str):
+
+  def __repr__(self):
+    return '<Schedule %s>' % str(self)
+
+
+class _FloatSub(float):
+
+  def __repr__(self):
+    return '<Rate %s>' % float(self)
+
+
 def nonlit_obj(kind):
   return {
+      'intenum16': lambda: _Prec.HALF, 'strsub_cosine': lambda: _StrSub('cosine'),
+      'floatsub_2_5': lambda: _FloatSub(2.5),
       'object': object, 'set': lambda: {1, 2}, 'frozenset': lambda: frozenset([1]),
       'lambda': lambda: (lambda: 0), 'instance': _Inst, 'range': lambda: range(3),
       'class': lambda: _Inst, 'inf': lambda: float('inf'), 'nan': lambda: float('nan'),
@@ -750,6 +773,15 @@ def _static_case(draw):
       keys.append(twin)
   bindings = [[s, sel, p, draw(_value()), draw(st.sampled_from(['parse', 'block', 'str', 'tuple']))]
               for s, sel, p in keys]
+  if len(bindings) >= 2 and draw(st.integers(0, 3)) == 0:
+    # a value without literal form next to the plain literal it is equal (and hash-equal) to
+    kind = draw(st.sampled_from(sorted(TWINS)))
+    i, j = draw(st.sampled_from([(0, 1), (1, 0), (0, len(bindings) - 1), (len(bindings) - 1, 0)]))
+    if i != j:
+      wrap = draw(st.sampled_from([lambda v: v, lambda v: ['list', [v]],
+                                   lambda v: ['dict', [["'k'", v]]]]))
+      bindings[i][3] = wrap(['nonlit', kind])
+      bindings[j][3] = wrap(['lit', TWINS[kind]])
   macros = [[m, draw(_value(1)), draw(st.sampled_from(['parse', 'bind']))]
             for m in draw(st.lists(st.sampled_from(MACROS), unique=True, max_size=3))]
   indent = draw(st.integers(0, 8))
